@@ -76,20 +76,22 @@ func init() {
 				// the input are not recovered from coordinates - the weaker, still necessary, form is checked)
 				worst, cur := 0.0, 0
 				for i := range ls {
+					if i&4095 == 0 {
+						progress() // (the harness's own work: the watchdog is after library calls that do not return)
+					}
 					// (the piece that covers a vertex is at or just behind the one that covered the vertex before it: those are
 					// tried first, the whole line only when they do not do)
 					best := planar.DistanceFromSegment(dp[cur], dp[minInt(cur+1, len(dp)-1)], ls[i])
-					for k := cur + 1; k+1 < len(dp) && k <= cur+3 && best > t; k++ {
+					for step := 1; step < len(dp) && best > t; step++ { // onwards from there, round to the start again
+						k := (cur + step) % len(dp)
+						if k+1 >= len(dp) {
+							continue
+						}
 						if d := planar.DistanceFromSegment(dp[k], dp[k+1], ls[i]); d < best {
 							best = d
 							if d <= t {
 								cur = k
 							}
-						}
-					}
-					for k := 0; k+1 < len(dp) && best > t; k++ {
-						if d := planar.DistanceFromSegment(dp[k], dp[k+1], ls[i]); d < best {
-							best = d
 						}
 					}
 					if best > worst {
